@@ -424,11 +424,64 @@ def check_helper(ctx):
            where=f.where, members=sorted(members))
 
 
+def _all_to_loop(fn):
+    """`ok = all(CALL(v) for v in L); REST` (a generator, so the calls stop at the first falsy result; `ok` is read only in
+    REST, and REST with `ok = False` ends in a return) is the loop the packet rules read:
+    `for v in L: if not CALL(v): REST[ok := False]` followed by `REST[ok := True]`, with the tests of the constant folded."""
+    import copy
+
+    def fold(stmts, name, value):
+        class Sub(ast.NodeTransformer):
+            def visit_Name(self, node):
+                if node.id == name and isinstance(node.ctx, ast.Load):
+                    return ast.copy_location(ast.Constant(value=value), node)
+                return node
+
+        out = []
+        for st in stmts:
+            st = Sub().visit(copy.deepcopy(st))
+            if isinstance(st, ast.If):
+                t = st.test
+                neg = isinstance(t, ast.UnaryOp) and isinstance(t.op, ast.Not)
+                c = t.operand if neg else t
+                if isinstance(c, ast.Constant) and isinstance(c.value, bool):
+                    out.extend(st.body if (c.value != neg) else st.orelse)
+                    continue
+            out.append(st)
+        return out
+
+    for owner, field, lst in normal._stmt_lists(fn):
+        for i, st in enumerate(lst):
+            if not (isinstance(st, ast.Assign) and len(st.targets) == 1 and isinstance(st.targets[0], ast.Name) and isinstance(st.value, ast.Call) and isinstance(st.value.func, ast.Name)
+                    and st.value.func.id == "all" and len(st.value.args) == 1 and isinstance(st.value.args[0], ast.GeneratorExp)):
+                continue
+            gen = st.value.args[0]
+            if len(gen.generators) != 1 or gen.generators[0].ifs or gen.generators[0].is_async or not isinstance(gen.elt, ast.Call):
+                continue
+            name = st.targets[0].id
+            rest = lst[i + 1:]
+            uses = [n for n in ast.walk(fn) if isinstance(n, ast.Name) and n.id == name]
+            inside = [n for r in rest for n in ast.walk(r) if isinstance(n, ast.Name) and n.id == name]
+            if len(uses) != len(inside) + 1 or any(isinstance(n.ctx, ast.Store) for n in inside):
+                continue
+            failed, passed = fold(rest, name, False), fold(rest, name, True)
+            if not failed or not isinstance(failed[-1], ast.Return):
+                continue
+            test = ast.UnaryOp(op=ast.Not(), operand=gen.elt)
+            loop = ast.For(target=gen.generators[0].target, iter=gen.generators[0].iter, body=[ast.If(test=test, body=failed, orelse=[])], orelse=[])
+            ast.copy_location(loop, st)
+            setattr(owner, field, lst[:i] + [loop] + passed)
+            ast.fix_missing_locations(fn)
+            return fn
+    return fn
+
+
 def check_process_send_queue(ctx):
     repo = ctx.repo
     func = repo.method("HsmsProtocol", "_process_send_queue", inherited=False)
     ctx.touch(func)
     fn = normal.normalised(ctx, func, comps=False, ifexp=False, aliases=False)
+    fn = _all_to_loop(fn)
     normal.append_loops_to_comprehensions(fn)
     q = func.qualname
     cfg = cfg_of(fn)
